@@ -294,13 +294,18 @@ def run(ctx):
     for b, t in th.calls():
         c = t.get("callee") or ""
         if c.endswith("Vec::<T, A>::push") and len(t["args"]) > 1:
-            v = show(th.expr_op(t["args"][1], deep=False))
-            tgt = show(th.expr_op(t["args"][0], deep=False))
-            if "ops" in tgt:
+            # the work list is the vector of TreeOp (by type); a pushed child is recognised by what it IS - field 0 / 1 of the
+            # visited node's Pair payload - not by what the binding is called
+            v = show(th.expr_op(t["args"][1]))
+            m_ = re.match(r"SExp\(\(.* as Pair\)\.([01])\)$", v)
+            if m_:
+                v = "SExp(child %s of the visited pair)" % m_.group(1)
+            pl_ = mir.op_place(t["args"][0])
+            if pl_ and "Vec<treehash::TreeOp>" in th.local_ty(pl_["l"]):
                 pushes.append((b, v))
     sexp_p = [(b, v) for b, v in pushes if v.startswith("SExp(")]
     cons_p = [(b, v) for b, v in pushes if v.startswith("Cons")]
-    okp = len(sexp_p) == 2 and len(cons_p) == 1 and {v for _, v in sexp_p} == {"SExp(left)", "SExp(right)"}
+    okp = len(sexp_p) == 2 and len(cons_p) == 1 and {v for _, v in sexp_p} == {"SExp(child 0 of the visited pair)", "SExp(child 1 of the visited pair)"}
     if okp:
         b1, b2 = sorted(b for b, _ in sexp_p)
         cb = cons_p[0][0]
@@ -344,7 +349,8 @@ def run(ctx):
           "for every pair both children are pushed unconditionally (sub-trees are hashed, and charged, once per occurrence)",
           site=th.where(sexp_p[0][0]) if sexp_p else th.where(0), detail=[v for _, v in pushes])
     # every cost update followed by check_cost before the next loop iteration / return
-    cost_l = th.local_by_name("cost")
+    from rules.c02 import cost_accumulator
+    cost_l = [cost_accumulator(th)]
     upd = [s for s in th.defs(cost_l[0])] if cost_l else []
     ccs = [b for b, _ in th.calls_to("cost::check_cost")]
     unchecked = []
